@@ -85,7 +85,7 @@ func (w *World) Restore(s *snapshot) {
 func (w *World) inner(ev Event) *Msg {
 	if ev.Tx != nil {
 		m := w.MsgOfTx(ev.N, ev.Tx)
-		if len(m.Snd) == 0 || m.DstShard == vmcommon.MetachainShardId {
+		if len(m.Snd) != 32 || len(m.Rcv) != 32 || m.DstShard == vmcommon.MetachainShardId {
 			return nil
 		}
 		return m
